@@ -94,6 +94,27 @@ Proof.
   - apply give_back_inv. exact Hst.
 Qed.
 
+(** simultaneous requests for one id: whatever the serving order, at most one ticket *)
+Lemma borrow_running id f st st' : borrow id f st = Some st' -> is_running id st' = true.
+Proof.
+  unfold borrow. destruct (is_running id st); [discriminate|].
+  destruct f; [destruct (0 <? r_full st) | destruct (0 <? r_incr st)]; try discriminate;
+    intros [= <-]; unfold is_running; cbn; unfold has_id at 1; cbn; rewrite Z.eqb_refl; reflexivity.
+Qed.
+
+Lemma grant_count_running id reqs st : is_running id st = true -> grant_count id reqs st = O.
+Proof.
+  intros Hr. induction reqs as [|f reqs IH]; [reflexivity|]. cbn [grant_count].
+  unfold borrow. rewrite Hr. exact IH.
+Qed.
+
+Theorem grant_at_most_one id reqs : forall st, (grant_count id reqs st <= 1)%nat.
+Proof.
+  induction reqs as [|f reqs IH]; intros st; cbn [grant_count]; [lia|].
+  destruct (borrow id f st) as [st'|] eqn:Hb; [|apply IH].
+  rewrite (grant_count_running id reqs st' (borrow_running _ _ _ _ Hb)). lia.
+Qed.
+
 (** what the invariant means *)
 Lemma rinv_bounds capF capI st : rinv capF capI st ->
   NoDup (map fst (r_running st))
